@@ -15,6 +15,7 @@ import (
 	"strings"
 	"sync"
 	"sync/atomic"
+	"time"
 
 	"github.com/mark3labs/flyt"
 )
@@ -386,7 +387,7 @@ func (g *linGen) randomProg(nkeys, L int) []LOp {
 		case p < 85:
 			out = append(out, LOp{K: "getall"})
 		case p < 94:
-			out = append(out, g.merge(2 + g.r.intn(4)))
+			out = append(out, g.merge(2+g.r.intn(4)))
 		default:
 			out = append(out, LOp{K: "clear"})
 		}
@@ -466,6 +467,46 @@ func genHistories(r *rng, tier string) (out [][]HOp, tags [][]string) {
 	return
 }
 
+// hammerStore: concurrent operations on keys that already exist (an overwrite is a write too)
+func hammerStore(ms int) {
+	s := flyt.NewSharedStore()
+	s.Set("a", 0)
+	s.Set("b", 0)
+	stop := make(chan struct{})
+	var wg sync.WaitGroup
+	for g := 0; g < 8; g++ {
+		g := g
+		wg.Add(1)
+		go func() {
+			defer wg.Done()
+			for i := 0; ; i++ {
+				select {
+				case <-stop:
+					return
+				default:
+				}
+				switch (i + g) % 6 {
+				case 0:
+					s.Set("a", i)
+				case 1:
+					s.Get("a")
+				case 2:
+					s.Set("b", i)
+				case 3:
+					_ = s.Keys()
+				case 4:
+					_ = s.Len()
+				default:
+					s.Merge(map[string]any{"a": i, "b": i})
+				}
+			}
+		}()
+	}
+	time.Sleep(time.Duration(ms) * time.Millisecond)
+	close(stop)
+	wg.Wait()
+}
+
 func linMain(prop, tier string, seed uint64, out, replay string) error {
 	type lCase struct {
 		ID   int      `json:"id"`
@@ -494,6 +535,11 @@ func linMain(prop, tier string, seed uint64, out, replay string) error {
 		hs, tags = [][]HOp{h}, [][]string{nil}
 	} else {
 		hs, tags = genHistories(newRng(seed), tier)
+		// before the recorded histories: unrecorded writers and readers hammering two EXISTING keys;
+		// this binary is built with the race detector (GORACE=halt_on_error=1), so a write that is
+		// not exclusive ends the process here, attributed to this step
+		noteProgressAny(out, -1, "hammer: 8 goroutines, Set / Get / Keys / Len / Merge on two existing keys", []string{"hammer"})
+		hammerStore(300)
 	}
 	st := newStats()
 	var cases []coqCase
